@@ -2,13 +2,16 @@
 # Runs every seeded change under /verif/seeded against the quick check of the property it breaks
 # (and optionally a second property given in meta.json "also_check") and writes seeded/RESULTS.md.
 # /repo is restored after each patch.
+# ONLY=<glob> (e.g. ONLY='*-r8m*') re-runs just the matching directories and replaces/appends their rows.
 set -u
 cd /verif
 OUT=seeded/RESULTS.md
 echo "| seeded change | property | check | exit | signatures reported |" > $OUT.tmp
 echo "|---|---|---|---|---|" >> $OUT.tmp
+ONLY="${ONLY:-}"
 for d in seeded/*/; do
   id=$(basename "$d")
+  if [ -n "$ONLY" ]; then case "$id" in $ONLY) ;; *) continue;; esac; fi
   prop=${id%%-*}
   case "$prop" in C[0-9][0-9]) ;; *) prop=$(python3 -c "import json;print(json.load(open('$d/meta.json'))['breaks_property'])");; esac
   other=$(python3 -c "import json;print(json.load(open('$d/meta.json')).get('check_with',''))" 2>/dev/null)
@@ -25,4 +28,17 @@ for d in seeded/*/; do
   echo "| $id | $prop | $tier | ${ex#exit=} | $sigs |" >> $OUT.tmp
   echo "$id $prop $ex $sigs"
 done
-mv $OUT.tmp $OUT
+if [ -n "$ONLY" ]; then
+  # keep the rows of the directories that were not re-run, replace the others, keep the order by id
+  python3 - "$OUT" "$OUT.tmp" <<'PY'
+import sys
+old=open(sys.argv[1]).read().splitlines(); new=open(sys.argv[2]).read().splitlines()
+rows={}
+for l in old[2:]+new[2:]:
+    if l.startswith("| "): rows[l.split("|")[1].strip()]=l
+open(sys.argv[1],"w").write("\n".join(old[:2]+[rows[k] for k in sorted(rows)])+"\n")
+PY
+  rm -f $OUT.tmp
+else
+  mv $OUT.tmp $OUT
+fi
